@@ -1469,6 +1469,23 @@ func (m *metadataAPI) resetFailovers() {
 // tombstone. Tombstoned streams will be deleted after the recovery process
 // completes.
 func (m *metadataAPI) RemoveStream(stream *stream, recovered bool, epoch uint64) error {
+	if err := m.removeStreamFromStore(stream, recovered, epoch); err != nil {
+		return err
+	}
+	// Consumer groups see the deletion at the epoch of the operation and
+	// before the next operation is applied, during recovery as well, so that
+	// every server processes it at the same point of the log. This happens
+	// outside of the metadata lock because groups look up streams while
+	// rebalancing.
+	m.consumerGroupsMu.RLock()
+	for _, group := range m.consumerGroups {
+		group.StreamDeleted(stream.GetName(), epoch)
+	}
+	m.consumerGroupsMu.RUnlock()
+	return nil
+}
+
+func (m *metadataAPI) removeStreamFromStore(stream *stream, recovered bool, epoch uint64) error {
 	m.mu.Lock()
 	defer m.mu.Unlock()
 
@@ -1479,12 +1496,8 @@ func (m *metadataAPI) RemoveStream(stream *stream, recovered bool, epoch uint64)
 	// recreate will un-tombstone the stream.
 	if recovered {
 		stream.Tombstone()
-		// Consumer groups see the deletion at the epoch of the operation,
-		// as they do outside of recovery, so a replaying server ends up
-		// with the same group state as the servers that applied it live.
-		m.notifyStreamDeleted(stream.GetName(), epoch)
 	} else {
-		if err := m.deleteStream(stream, epoch, true); err != nil {
+		if err := m.deleteStream(stream); err != nil {
 			return err
 		}
 	}
@@ -1515,7 +1528,7 @@ func (m *metadataAPI) RemoveTombstonedStream(stream *stream, epoch uint64) error
 	m.mu.Lock()
 	defer m.mu.Unlock()
 	// Consumer groups were notified when the stream was tombstoned.
-	return m.deleteStream(stream, epoch, false)
+	return m.deleteStream(stream)
 }
 
 // LostLeadership should be called when the server loses metadata leadership.
@@ -1529,7 +1542,7 @@ func (m *metadataAPI) LostLeadership() {
 }
 
 // deleteStream deletes the stream and the associated on-disk data for it.
-func (m *metadataAPI) deleteStream(stream *stream, epoch uint64, notifyGroups bool) error {
+func (m *metadataAPI) deleteStream(stream *stream) error {
 	err := stream.Delete()
 	if err != nil {
 		return errors.Wrap(err, "failed to delete stream")
@@ -1543,9 +1556,6 @@ func (m *metadataAPI) deleteStream(stream *stream, epoch uint64, notifyGroups bo
 	}
 
 	m.forgetStream(stream)
-	if notifyGroups {
-		m.notifyStreamDeleted(stream.GetName(), epoch)
-	}
 	return nil
 }
 
